@@ -1646,6 +1646,48 @@ func (x *accExtractor) emit(root string) error {
 			}
 		}
 	}
+	// translation completeness (R1): every selector expression that selects a field of a tracked struct type, anywhere
+	// in the analysed sources, must have produced a row at its position
+	rowPos := map[token.Pos]bool{}
+	for _, r := range x.rows {
+		rowPos[r.pos] = true
+	}
+	var missed []string
+	for _, p := range x.pkgs {
+		w := &walker{x: x, p: p}
+		for _, f := range p.files {
+			ast.Inspect(f, func(n ast.Node) bool {
+				switch n := n.(type) {
+				case *ast.SelectorExpr:
+					sel := p.info.Selections[n]
+					if sel == nil || sel.Kind() != types.FieldVal {
+						return true
+					}
+					t := sel.Recv()
+					idx := sel.Index()
+					for _, k := range idx[:len(idx)-1] {
+						st, ok := derefStruct(t)
+						if !ok {
+							return true
+						}
+						t = st.Field(k).Type()
+					}
+					if _, tracked := w.trackedStruct(t); tracked && !rowPos[n.Pos()] {
+						ft := sel.Obj().Type()
+						if _, tr := w.trackedStruct(ft); tr {
+							if _, isPtr := ft.(*types.Pointer); !isPtr {
+								return true // &x.f / x.f.g of a tracked value struct: the inner field carries the row
+							}
+						}
+						missed = append(missed, fmt.Sprintf("%s: field selection %s.%s without a row", x.fset.Position(n.Pos()), n.Sel.Name, ""))
+					}
+				}
+				return true // (a function literal the walker never saw, e.g. a package-level sync.Pool New function, is
+				// covered through its selectors: they would be missing rows)
+			})
+		}
+	}
+	sort.Strings(missed)
 	// dedupe identical rows at the same site
 	seen := map[string]bool{}
 	var rows []*accRow
@@ -1928,6 +1970,7 @@ func (x *accExtractor) emit(root string) error {
 		Fields      int                 `json:"fields"`
 		Locks       []string            `json:"locks"`
 		Exported    []string            `json:"exported_methods"`
+		Missed      []string            `json:"missed_sites"`
 		Aliases     []string            `json:"pointer_aliases"`
 		CHAEdges    int                 `json:"interface_call_edges"`
 	}{Rows: rows, Excluded: excluded, Unresolved: x.unresolved, Confinement: confinement, Used: used, Entry: map[string][]string{}, Fields: len(fields), Locks: locks}
@@ -1962,6 +2005,7 @@ func (x *accExtractor) emit(root string) error {
 	sort.Strings(out.Exported)
 	sort.Strings(x.aliasWhy)
 	out.Aliases, out.CHAEdges = x.aliasWhy, x.chaEdges
+	out.Missed = missed
 	jb, _ := json.MarshalIndent(out, "", " ")
 	os.MkdirAll(filepath.Join(root, ".build", "c10"), 0o755)
 	if err := os.WriteFile(filepath.Join(root, ".build", "c10", "accesses.json"), jb, 0o644); err != nil {
